@@ -25,6 +25,13 @@ constants/tables.)
   dict literals, argument binding into resolved package callees, loop variables as the symbolic `("elem", loop)`,
   loop-carried names kept opaque - no unrolling; several reaching definitions -> `phi`, compared structurally),
   device 1 (resolved callees, `bind_args`), device 6 (`_fold`: arithmetic on literals / single-definition constants).
+  None alternatives (`x = <object> | None`, also through copies and inlined helpers that `return None` when they find
+  nothing): device 2 + 5 - a definition contributes its None alternative to a use only if the CFG has a path from that
+  definition to the use that avoids the other definitions of the name and every branch edge on which a test of the
+  name excludes None (`_excludes_none`: `is None` / `is not None` / `== None` / `!= None` / truthiness under
+  not/and/or, vocabulary None / not None); decided per definition, so "raise at the end", "None test in the caller",
+  early returns, nested tests and one shared final test are the same thing.  Tests relating two names are not followed
+  (the None alternative stays).
   `_ceval` - device 6 only: folds a *closed constant* expression of /repo (module-level table, literal `range(..)`),
   including `bytes([..])`/`list(..)`/`range(..)` and a single-generator comprehension whose iterable is itself such a
   constant spelled out by /repo; it is never given a value, length or byte string chosen by the checker, and it never
@@ -65,7 +72,10 @@ constants/tables.)
 * R6: 1, 2, 3 - consumption of the candidate source (for loop / `next`) located by term equality; "first candidate
   wins" = no CFG path from the loop body back to the header / no second advance; returned term is a construction by the
   class parameter from `candidate[0]`, attribute stores between construction and return compared structurally with
-  `candidate[1]["xorkey"|"xorencoded"]`; dominating conditions for the `next(.., default)` presence test.
+  `candidate[1]["xorkey"|"xorencoded"]`; dominating conditions for the `next(.., default)` presence test.  A return
+  statement shared by several search strategies returns one alternative per strategy (`phi`): the subject is every
+  alternative built from the candidate, the alternatives of the other strategies are not subjects of R6 (as if each
+  strategy had its own return statement); all alternatives are subjects of R7 "return value".
 * R7: 1, 2, 3 - exit analysis on the CFG (return terms, `falls_off_end`, reachable raise classes, escaping
   `raise ValueError`), structural comparison of the forwarded argument terms in from_file / from_path / from_bytes.
 * R8: imported obligations of `rules.c15.scanner_obligations` (technique documented there).
@@ -304,6 +314,30 @@ def _ceval(node, env=None):
     raise NotConst(src(node))
 
 
+def _excludes_none(test, pol, name) -> bool:
+    """does `test` evaluating to `pol` imply that local `name` is not None?  (`x is None`, `x is not None`, `x == None`,
+    `x != None`, truthiness of x, under not/and/or; mirrored operands accepted)"""
+    if isinstance(test, ast.UnaryOp) and isinstance(test.op, ast.Not):
+        return _excludes_none(test.operand, not pol, name)
+    if isinstance(test, ast.BoolOp):
+        all_hold = isinstance(test.op, ast.And) == pol  # `and` true / `or` false: every operand has that truth value
+        return (any if all_hold else all)(_excludes_none(x, pol, name) for x in test.values)
+    if isinstance(test, ast.NamedExpr):
+        return False
+    if isinstance(test, ast.Name):
+        return pol and test.id == name
+    if isinstance(test, ast.Compare) and len(test.ops) == 1:
+        l, r = test.left, test.comparators[0]
+        if isinstance(l, ast.Constant):
+            l, r = r, l
+        if isinstance(l, ast.Name) and l.id == name and isinstance(r, ast.Constant) and r.value is None:
+            if isinstance(test.ops[0], (ast.Is, ast.Eq)):
+                return not pol
+            if isinstance(test.ops[0], (ast.IsNot, ast.NotEq)):
+                return pol
+    return False
+
+
 class _Val:
     """Flow-sensitive value terms of the expressions of one function."""
 
@@ -319,6 +353,7 @@ class _Val:
                 self.locals.add(x.arg)
         self.node = {}  # id -> ast node of ("call", id) / ("elem", id)
         self._active = set()
+        self._nn_edges = {}  # local name -> CFG branch edges on which it is known not to be None
         # locals whose object is changed in place somewhere (item/attribute stores, mutating method calls): a literal
         # seen at their definition does not describe their later content
         self.mutated = set()
@@ -449,36 +484,56 @@ class _Val:
                     self._active.discard(key)
         if e.id in self.mutated:
             alts = [("opaque", "container changed in place") if a[0] in ("dict", "tuple") else a for a in alts]
-        if len(alts) > 1 and _const(None) in alts and self._known_not_none(e.id, at, [st for st, _v in rd]):
-            alts = [a for a in alts if a != _const(None)]
-        return _phi(alts)
+        # None alternatives that cannot arrive: a definition that may bind None (directly, or through a copy
+        # `x = tmp` with tmp = <object> | None) contributes None only if some path from it to the use passes no branch
+        # edge on which a test of this name excludes None (`x is None` false edge, `x is not None` / `x` true edge ...).
+        # Decided per definition on the CFG, so early exits, nested ifs and a shared final test are the same thing.
+        none = _const(None)
+        t = _phi(alts)
+        if t[0] == "phi" and none in t[1]:
+            kept = []
+            for a, (st, _v) in zip(alts, rd):
+                if none in _alts(a) and not self._none_arrives(e.id, at, st):
+                    rest = [x for x in _alts(a) if x != none]
+                    if rest:
+                        kept.append(_phi(rest))
+                else:
+                    kept.append(a)
+            if kept:
+                t = _phi(kept)
+        return t
 
-    def _known_not_none(self, name, at, def_stmts) -> bool:
-        """the use is dominated by a test that excludes None for `name`, and no definition lies between test and use"""
+    def _def_node(self, st):
+        if st is self.fn:
+            return ENTRY
+        ds = st if isinstance(st, ast.stmt) else self.fv.stmt_of(st)
+        if ds is None or not self.cfg.has(ds):
+            return None
+        return self.cfg.edge_node(ds, "iter") if isinstance(ds, (ast.For, ast.AsyncFor)) else self.cfg.node(ds)
+
+    def _not_none_edges(self, name):
+        """branch edges of the CFG on which a test of local `name` has just excluded None"""
+        if name not in self._nn_edges:
+            out = []
+            for s in self.cfg.stmt.values():
+                if isinstance(s, (ast.If, ast.While)):
+                    for label, pol in (("true", True), ("false", False)):
+                        if _excludes_none(s.test, pol, name):
+                            out.append(self.cfg.edge_node(s, label))
+            self._nn_edges[name] = out
+        return self._nn_edges[name]
+
+    def _none_arrives(self, name, at, def_stmt) -> bool:
+        """can the value bound to `name` by `def_stmt` reach the use `at` without passing a None-excluding test of
+        `name`?  (CFG reachability avoiding those branch edges and the other definitions of the name)"""
         cfg = self.cfg
-        use = self.stmt_node(at)
-        if use is None:
-            return False
-        for txt, pol, node in dominating_conditions(self.ctx, self.f, at):
-            if not ((txt == f"{name} is not None" and pol) or (txt == f"{name} is None" and not pol) or (txt == name and pol)):
-                continue
-            st = self.fv.stmt_of(node)
-            if st is None or not cfg.has(st):
-                continue
-            tn = cfg.node(st)
-            between = False
-            for d in def_stmts:
-                if d is self.fn:
-                    continue
-                ds = d if isinstance(d, ast.stmt) else self.fv.stmt_of(d)
-                if ds is None or not cfg.has(ds):
-                    continue
-                dn = cfg.edge_node(ds, "iter") if isinstance(ds, (ast.For, ast.AsyncFor)) else cfg.node(ds)
-                if dn != tn and cfg.reaches(tn, dn, avoiding=[use]) and cfg.reaches(dn, use, avoiding=[tn]):
-                    between = True
-            if not between:
-                return True
-        return False
+        use, dn = self.stmt_node(at), self._def_node(def_stmt)
+        if use is None or dn is None:
+            return True
+        others = [n for n in (self._def_node(st) for st, _v in assignments_to(self.fn, name)) if n is not None and n != dn]
+        if name in self.params and dn != ENTRY:
+            others.append(ENTRY)
+        return cfg.reaches(dn, use, avoiding=others + self._not_none_edges(name))
 
     def _bound(self, st, name, depth):
         def proj(target, base):
@@ -1397,56 +1452,65 @@ def r6_r7(ctx):
         for r in cfg.return_stmts():
             if r.value is None:
                 continue
-            rt = v.term(r.value, r)
+            rt0 = v.term(r.value, r)
             for cand_t, cnode, cn in cands:
                 rn = cfg.node(r)
-                if not _mentions_cand(v, rt, cand_t) and not (cand_t[0] == "elem" and cfg.dominates(cnode, rn) and any(r is x for x in ast.walk(cn))):
-                    continue
-                n_ret += 1
-                cons = _cls_construction(v, rt)
-                if cons is None:
-                    ctx.undecided("R6", "AGREE", f, "candidate return", f"the value returned for a candidate is not a direct construction by {ps[0]}(...): {v.show(rt)}", r)
-                    continue
-                arg0 = cons.args[0] if cons.args else (cons.keywords[0].value if cons.keywords and cons.keywords[0].arg else None)
-                b_ok = arg0 is not None and v.term(arg0, cons) == _item(cand_t, 0)
-                if cand_t[0] == "call":
-                    # next(.., default): the candidate is only used where it is known not to be the default
-                    conds = dominating_conditions(ctx, f, cons)
-                    tested = False
-                    for _txt, pol, tn in conds:
-                        subj = tn.left if isinstance(tn, ast.Compare) else tn
-                        if v.term(subj, fv.stmt_of(tn) or tn) == cand_t:
-                            tested = True
-                    if len(cn.args) + len(cn.keywords) >= 2:
-                        ctx.ob("R6", "DOM", f, "candidate presence test", tested, "the candidate is used only under a test that tells it from next()'s default" if tested else
-                               "the result of next(.., default) is used without testing whether a candidate was found", cons)
-                # metadata: attribute stores on the constructed object between construction and return
-                meta, escaped = _attr_stores(ctx, f, v, r, cons)
-                want_meta = {"xorkey": _key(_item(cand_t, 1), "xorkey"), "xorencoded": _key(_item(cand_t, 1), "xorencoded")}
-                m_ok, m_und, parts = True, False, []
-                for attr, wt in want_meta.items():
-                    vals = meta.get(attr)
-                    if not vals:
-                        if escaped:
-                            m_und = True
-                            parts.append(f"{attr}: not assigned directly (object is handed to other code)")
-                        else:
-                            m_ok = False
-                            parts.append(f"{attr}: never set")
-                    else:
-                        good = all(t == wt for t in vals)
-                        if not good and not any(t != wt and _understood(t) for t in vals):
-                            m_und = True
-                            parts.append(f"{attr} <- {', '.join(v.show(t) for t in vals)} (not understood)")
-                            continue
-                        m_ok = m_ok and good
-                        parts.append(f"{attr} <- {', '.join(v.show(t) for t in vals)} ({'candidate metadata' if good else 'NOT the candidate metadata'})")
-                text = "return of the candidate config"
-                if b_ok and m_ok and m_und:
-                    ctx.undecided("R6", "AGREE", f, text, "; ".join(parts), r)
+                # a return statement shared by several search strategies (`result = A or-else B; return result`) returns
+                # one alternative per strategy: the subject is the alternative built from this candidate - the others
+                # are the returns of the other strategies, exactly as if each had its own return statement
+                mine = [a for a in _alts(rt0) if _mentions_cand(v, a, cand_t)]
+                if mine:
+                    rts = mine
+                elif cand_t[0] == "elem" and cfg.dominates(cnode, rn) and any(r is x for x in ast.walk(cn)):
+                    rts = [rt0]
                 else:
-                    ctx.ob("R6", "AGREE", f, text, b_ok and m_ok,
-                           f"returned config is {ps[0]}(<candidate block>)={b_ok}; " + "; ".join(parts), r)
+                    continue
+                for rt in rts:
+                    n_ret += 1
+                    cons = _cls_construction(v, rt)
+                    if cons is None:
+                        ctx.undecided("R6", "AGREE", f, "candidate return", f"the value returned for a candidate is not a direct construction by {ps[0]}(...): {v.show(rt)}", r)
+                        continue
+                    arg0 = cons.args[0] if cons.args else (cons.keywords[0].value if cons.keywords and cons.keywords[0].arg else None)
+                    b_ok = arg0 is not None and v.term(arg0, cons) == _item(cand_t, 0)
+                    if cand_t[0] == "call":
+                        # next(.., default): the candidate is only used where it is known not to be the default
+                        conds = dominating_conditions(ctx, f, cons)
+                        tested = False
+                        for _txt, pol, tn in conds:
+                            subj = tn.left if isinstance(tn, ast.Compare) else tn
+                            if v.term(subj, fv.stmt_of(tn) or tn) == cand_t:
+                                tested = True
+                        if len(cn.args) + len(cn.keywords) >= 2:
+                            ctx.ob("R6", "DOM", f, "candidate presence test", tested, "the candidate is used only under a test that tells it from next()'s default" if tested else
+                                   "the result of next(.., default) is used without testing whether a candidate was found", cons)
+                    # metadata: attribute stores on the constructed object between construction and return
+                    meta, escaped = _attr_stores(ctx, f, v, r, cons)
+                    want_meta = {"xorkey": _key(_item(cand_t, 1), "xorkey"), "xorencoded": _key(_item(cand_t, 1), "xorencoded")}
+                    m_ok, m_und, parts = True, False, []
+                    for attr, wt in want_meta.items():
+                        vals = meta.get(attr)
+                        if not vals:
+                            if escaped:
+                                m_und = True
+                                parts.append(f"{attr}: not assigned directly (object is handed to other code)")
+                            else:
+                                m_ok = False
+                                parts.append(f"{attr}: never set")
+                        else:
+                            good = all(t == wt for t in vals)
+                            if not good and not any(t != wt and _understood(t) for t in vals):
+                                m_und = True
+                                parts.append(f"{attr} <- {', '.join(v.show(t) for t in vals)} (not understood)")
+                                continue
+                            m_ok = m_ok and good
+                            parts.append(f"{attr} <- {', '.join(v.show(t) for t in vals)} ({'candidate metadata' if good else 'NOT the candidate metadata'})")
+                    text = "return of the candidate config"
+                    if b_ok and m_ok and m_und:
+                        ctx.undecided("R6", "AGREE", f, text, "; ".join(parts), r)
+                    else:
+                        ctx.ob("R6", "AGREE", f, text, b_ok and m_ok,
+                               f"returned config is {ps[0]}(<candidate block>)={b_ok}; " + "; ".join(parts), r)
         if n_ret == 0:
             ctx.undecided("R6", "AGREE", f, "return of the candidate config", "no return statement that is built from the candidate located", call)
     # R7: exits
